@@ -1,7 +1,7 @@
-\* C04 thorough (replay 2): 1 thread, <= 3 spans (verdict free), <= 4 frames, no tasks, nesting <= 3, sync forms, incoming ids, Frame::current; every transition replayed.
+\* C04 thorough (model checking only, 2): 2 threads, <= 3 spans (verdict free), <= 4 frames, no tasks, nesting <= 3, sync forms, incoming ids, hand-off.
 SPECIFICATION SSpec
 CONSTANTS
-    NThreads = 1
+    NThreads = 2
     StoreOf <- MC_Store1
     NKeys = 3
     PropChoices <- MC_None
@@ -14,7 +14,7 @@ CONSTANTS
     MaxSpans = 3
     WithIncoming = TRUE
     WithLazy = FALSE
-    Emit = TRUE
+    Emit = FALSE
 VIEW sview
 INVARIANTS InnermostWins NoTrace StackOK FrameIds AmbientIds OneTrace ParentIsEnclosing EventCarriesInnermost IdsDistinct
 PROPERTIES Revert
